@@ -331,6 +331,12 @@ func minimise(t *testing.T, p Prop, name string, res Result, idx int, pet func()
 		return Violation{Property: name, Clause: c, Key: k, Msg: res.Failures[0].Msg, Seed: res.Seed, RunIndex: idx, Mode: Mode(),
 			Tape: res.Tape, OrigTape: len(res.Tape), TraceHash: fmt.Sprintf("%016x", res.TraceHash)}
 	}
+	// a candidate that runs much longer than the failing run is no simplification: cut it off
+	// (a zeroed tape can mean "largest payload, byte by byte" and run to the step limit)
+	pc := p
+	if c := res.Steps*4 + 2000; c < pc.Opt.MaxSteps {
+		pc.Opt.MaxSteps = c
+	}
 	deadline := time.Now().Add(time.Duration(envInt("SIM_SHRINK_S", 60)) * time.Second)
 	spent := func() bool { return runs >= maxRuns || time.Now().After(deadline) }
 	try := func(c []uint32) bool {
@@ -339,7 +345,7 @@ func minimise(t *testing.T, p Prop, name string, res Result, idx int, pet func()
 		}
 		runs++
 		pet()
-		r := runOne(t, p, ReplayTape(c), res.Seed, false)
+		r := runOne(t, pc, ReplayTape(c), res.Seed, false)
 		c2, k2 := failKey(r.Failures)
 		if c2 == clause && k2 == key {
 			// keep only what was consumed
